@@ -10,6 +10,7 @@ import (
 	"os/exec"
 	"path/filepath"
 	"strings"
+	"sync"
 	"syscall"
 	"testing"
 	"time"
@@ -41,7 +42,7 @@ func TestC11Binary(t *testing.T) {
 		t.Skipf("prunner binary not built: %v", err)
 	}
 	vh := helper(t)
-	col := ev.Get("C11", "binary", "the real prunner binary (go build ./cmd/prunner from the tree under test) with a generated pipelines.yml of 'vhelper hang' tasks (two-task chain, concurrency 1, queue) is started, 2-4 jobs are scheduled over HTTP, and SIGINT (graceful) or SIGTERM (forced) is sent at a generated instant, in half of the cases followed 1-60 ms later by a reload request (SIGUSR1); oracle: the program does not crash, the process exits within the bound (graceful: remaining task time + 3 s; forced: 2 s kill timeout + 3 s), data.json loads and holds every accepted job in a terminal state; SIGINT => the running job ran both tasks to their end and is reported completed, waiting jobs are canceled and never ran; SIGTERM => no helper process is alive afterwards and the running job is reported canceled; non-trivial = a job was running and another waiting when the signal arrived; distinct by (signal, instant, task duration)")
+	col := ev.Get("C11", "binary", "the real prunner binary (go build ./cmd/prunner from the tree under test) with a generated pipelines.yml of 'vhelper hang' tasks (two-task chain, concurrency 1, queue) is started, 2-4 jobs are scheduled over HTTP, and SIGINT (graceful) or SIGTERM (forced) is sent at a generated instant, in half of the cases followed 1-60 ms later by a reload request (SIGUSR1), in a third of the SIGINT cases followed by SIGTERM, and always accompanied by schedule requests every 15 ms until the process is gone; oracle: every job accepted during the shutdown is in the store in a terminal state, the program does not crash, the process exits within the bound (graceful: remaining task time + 3 s; forced: 2 s kill timeout + 3 s), data.json loads and holds every accepted job in a terminal state; SIGINT => the running job ran both tasks to their end and is reported completed, waiting jobs are canceled and never ran; SIGTERM => no helper process is alive afterwards and the running job is reported canceled; non-trivial = a job was running and another waiting when the signal arrived; distinct by (signal, instant, task duration)")
 	auth := jwtauth.New("HS256", []byte(binSecret), nil)
 	_, token, _ := auth.Encode(map[string]interface{}{"sub": "bin"})
 	rapid.Check(t, func(rt *rapid.T) {
@@ -118,15 +119,46 @@ func TestC11Binary(t *testing.T) {
 			time.Sleep(time.Duration(rapid.IntRange(1, 60).Draw(rt, "reloadAfterMs")) * time.Millisecond)
 			_ = cmd.Process.Signal(syscall.SIGUSR1)
 		}
+		// requests that arrive while the shutdown is in progress: refused, or accepted and then not left unfinished
+		var lateMu sync.Mutex
+		var lateIDs []string
+		lateStop := make(chan struct{})
+		lateDone := make(chan struct{})
+		go func() {
+			defer close(lateDone)
+			for {
+				select {
+				case <-lateStop:
+					return
+				default:
+				}
+				if id, code := schedule(); code == 202 && id != "" {
+					lateMu.Lock()
+					lateIDs = append(lateIDs, id)
+					lateMu.Unlock()
+				}
+				time.Sleep(15 * time.Millisecond)
+			}
+		}()
+		// a graceful shutdown that the operator loses patience with: SIGINT, then SIGTERM
+		escalate := sig == syscall.SIGINT && rapid.IntRange(0, 2).Draw(rt, "sigtermAfterSigint") == 0
+		if escalate {
+			time.Sleep(time.Duration(rapid.IntRange(5, durMs).Draw(rt, "escalateAfterMs")) * time.Millisecond)
+			sent = time.Now()
+			_ = cmd.Process.Signal(syscall.SIGTERM)
+		}
 		bound := time.Duration(2*durMs)*time.Millisecond + 3*time.Second
-		if sig == syscall.SIGTERM {
+		if sig == syscall.SIGTERM || escalate {
 			bound = 2*time.Second + 3*time.Second
 		}
 		select {
 		case <-exited:
 		case <-time.After(bound):
-			rt.Fatalf("[C11] %v: the process has not exited %s after the signal", sig, bound)
+			close(lateStop)
+			rt.Fatalf("[C11] %v (then SIGTERM: %v): the process has not exited %s after the signal", sig, escalate, bound)
 		}
+		close(lateStop)
+		<-lateDone
 		took := time.Since(sent)
 		if out := logs.String(); strings.Contains(out, "panic:") || strings.Contains(out, "fatal error:") {
 			i := strings.Index(out, "panic:")
@@ -156,7 +188,9 @@ func TestC11Binary(t *testing.T) {
 			}
 			if i == 0 {
 				running++
-				if sig == syscall.SIGINT {
+				if escalate {
+					// (graceful, then forced: either way of ending is possible for the job that was running)
+				} else if sig == syscall.SIGINT {
 					if j.Canceled || !j.Completed {
 						rt.Fatalf("[C11] SIGINT: the running job is reported canceled=%v completed=%v; a graceful shutdown lets it finish", j.Canceled, j.Completed)
 					}
@@ -175,10 +209,19 @@ func TestC11Binary(t *testing.T) {
 				}
 			}
 		}
+		for i, id := range lateIDs {
+			j, ok := byID[id]
+			if !ok {
+				rt.Fatalf("[C11] %v: job %d accepted while the shutdown was in progress is not in the store afterwards", sig, i)
+			}
+			if !(j.Completed || j.Canceled) {
+				rt.Fatalf("[C11] %v: job %d accepted while the shutdown was in progress is left unfinished in the store (start=%v)", sig, i, j.Start != nil)
+			}
+		}
 		if alive := aliveWithMarker(marker); len(alive) > 0 {
 			rt.Fatalf("[C11] %v: %d task processes are alive after prunner exited", sig, len(alive))
 		}
-		col.Add(fmt.Sprintf("%v/%d/%d/%d/%v", sig, durMs, nJobs, readyAtSignal, reloadDuring), running > 0 && waiting > 0, map[string]int{"signal:" + sig.String(): 1, "running+waiting": btoi(running > 0 && waiting > 0), "reload-request-during-shutdown": btoi(reloadDuring)}, nJobs,
+		col.Add(fmt.Sprintf("%v/%d/%d/%d/%v/%v", sig, durMs, nJobs, readyAtSignal, reloadDuring, escalate), running > 0 && waiting > 0, map[string]int{"signal:" + sig.String(): 1, "running+waiting": btoi(running > 0 && waiting > 0), "reload-request-during-shutdown": btoi(reloadDuring), "sigint-then-sigterm": btoi(escalate), "accepted-during-shutdown": btoi(len(lateIDs) > 0)}, nJobs,
 			map[string]interface{}{"signal": sig.String(), "task_ms": durMs, "jobs": nJobs, "tasks_started_at_signal": readyAtSignal, "exit_after_ms": took.Milliseconds()})
 	})
 }
